@@ -448,7 +448,12 @@ class cleanup_functools_wrapper(object):
         try:
             for attr in self.attrs:
                 try:
-                    value = getattr(self.func, attr)
+                    try:
+                        # the attribute as stored, not what a descriptor
+                        # standing in for it computes
+                        value = vars(self.func)[attr]
+                    except (TypeError, KeyError):
+                        value = getattr(self.func, attr)
                     delattr(self.func, attr)
                 except AttributeError:
                     pass
